@@ -198,6 +198,34 @@ def run(chk):
         prob = check_miter(r[1], c0, c1, tied, comp)
         chk.ob("C04.D.subsets-and-defaults", key, prob is None, file=FILE, func="miter", line=fi.node.lineno, fact=prob or {"tied": sorted(tied), "compared": sorted(comp)},
                expect="tied = given or common startpoints; compared = given or common endpoints")
+    # circuits that were queried, then edited in place through the public API, then compared: the defaults are those of the circuit
+    # as it is now (a remembered startpoint / endpoint set that an in-place edit does not invalidate shows here)
+    from ..pkgenv import to_full, to_ref
+
+    used_edits = (("an output renamed in place", lambda c_: c_.relabel({"k": "kk"})), ("an input renamed in place", lambda c_: c_.relabel({"c": "cc"})),
+                  ("the output mark moved", lambda c_: (c_.set_output("k", False), c_.set_output("g"))), ("an input re-typed to a gate", lambda c_: (c_.set_type("c", "not"), c_.connect("a", "c"))))
+    for label, edit in used_edits:
+        ref1 = cA.copy()
+        key = f"miter::queried, then edited in place::{label}@full-stack"
+        n += 1
+        try:
+            full0, full1 = to_full(FS.P, cA), to_full(FS.P, cA)
+            for q_ in ("startpoints", "endpoints", "inputs", "outputs", "io"):
+                getattr(full1, q_)()
+            edit(ref1)
+            edit(full1)
+        except ModelRaise as e_:
+            chk.ob("C04.D.subsets-and-defaults", key, False, file=FILE, func="miter", line=fi.node.lineno, fact={"problem": f"the scenario cannot be built through the public API: {e_}"})
+            continue
+        r = FS.P.call(FILE, "miter", full0, full1)
+        if r[0] != "return":
+            chk.ob("C04.D.subsets-and-defaults", key, False, file=FILE, func="miter", line=fi.node.lineno, fact={"result": str(r)[:200]})
+            continue
+        tied = cA.startpoints() & ref1.startpoints()
+        comp = cA.endpoints() & ref1.endpoints()
+        prob = check_miter(to_ref(r[1]), cA, ref1, tied, comp)
+        chk.ob("C04.D.subsets-and-defaults", key, prob is None, file=FILE, func="miter", line=fi.node.lineno, fact=prob or {"tied": sorted(tied), "compared": sorted(comp)},
+               expect="tied = the common startpoints, compared = the common endpoints of the circuits as they are when miter is called")
     # ---- N: node names that collide with the miter's own naming (sat, dif_<endpoint>, c0_<node> / c1_<node>) ----------------
     # the miter of a lint-clean circuit must exist whatever its nodes are called; the function fails loudly (ValueError) on these
     def _nm(names, out="y"):
